@@ -125,6 +125,11 @@ class AlignmentInfo:
                                                              self.polya_info.internal_polya_pos)
             self.polya_info.external_polya_pos = shift_polya(self.read_exons, polya_exon_count,
                                                              self.polya_info.external_polya_pos)
+            # a tail that is partly aligned begins where the internal position says, right behind the retained exon:
+            # the aligned tail bases in front of the external position are not bases of the transcript
+            if self.polya_info.internal_polya_pos != -1 and self.polya_info.external_polya_pos != -1:
+                self.polya_info.external_polya_pos = min(self.polya_info.external_polya_pos,
+                                                         self.polya_info.internal_polya_pos)
             self.read_exons = self.read_exons[:-polya_exon_count]
             self.read_blocks = self.read_blocks[:-polya_exon_count]
             self.cigar_blocks = self.cigar_blocks[:-polya_exon_count]
@@ -136,6 +141,9 @@ class AlignmentInfo:
                                                              self.polya_info.internal_polyt_pos)
             self.polya_info.external_polyt_pos = shift_polyt(self.read_exons, polyt_exon_count,
                                                              self.polya_info.external_polyt_pos)
+            if self.polya_info.internal_polyt_pos != -1 and self.polya_info.external_polyt_pos != -1:
+                self.polya_info.external_polyt_pos = max(self.polya_info.external_polyt_pos,
+                                                         self.polya_info.internal_polyt_pos)
             self.read_exons = self.read_exons[polyt_exon_count:]
             self.read_blocks = self.read_blocks[polyt_exon_count:]
             self.cigar_blocks = self.cigar_blocks[polyt_exon_count:]
